@@ -38,6 +38,7 @@ type c09memEnv struct {
 	w        *CaseWriter
 	txCfg    client.TxConfig
 	n        int
+	pseq     int
 	lastDump string
 }
 
@@ -52,6 +53,132 @@ func (c *c09memEnv) memDigest() [32]byte {
 		panic(err)
 	}
 	return sha256.Sum256(b)
+}
+
+// the memory dump in three parts: the aggregator context's own params (hash of their full marshalled contents), the
+// rest of the aggregator context, the caches (+ updated feeder ids)
+func (c *c09memEnv) memParts() [3][32]byte {
+	d := oraclekeeper.VerifC14DumpMem()
+	ph := d.Agc.ParamsHash
+	d.Agc.ParamsHash = ""
+	a, _ := json.Marshal(d.Agc)
+	cc, _ := json.Marshal(struct {
+		C interface{}
+		U []string
+	}{d.Cache, d.UpdatedFeederIDs})
+	return [3][32]byte{sha256.Sum256([]byte(ph)), sha256.Sum256(a), sha256.Sum256(cc)}
+}
+
+// ---- MsgUpdateParams transactions ------------------------------------------------------------------------------------
+// The messages are routed through the application's message service router inside a cache context that is written
+// only when every message succeeded (what baseapp runTx does); the chain id of the context is a testnet id for the
+// accepted-authority cases (on a mainnet id only the gov module may send the message, see C10).
+
+func (c *c09memEnv) deliverParams(kind string, msgs []*oracletypes.MsgUpdateParams, mainnet bool, tags []string) string {
+	ctx := c.env.App.BaseApp.NewContext(false, c.env.Header)
+	sb := c.storeDigest(ctx)
+	mb := c.memParts()
+	res, failIdx := "ok", int64(-1)
+	func() {
+		defer func() {
+			if r := recover(); r != nil {
+				res = "panic"
+			}
+		}()
+		txCtx, write := ctx.CacheContext()
+		if !mainnet {
+			txCtx = txCtx.WithChainID("exocoretestnet_233-1")
+		}
+		for i, m := range msgs {
+			h := c.env.App.MsgServiceRouter().Handler(m)
+			if _, err := h(txCtx, m); err != nil {
+				res, failIdx = "fail", int64(i)
+				if os.Getenv("VERIF_DEBUG") != "" {
+					fmt.Fprintln(os.Stderr, "c09mem params:", kind, i, err)
+				}
+				return
+			}
+		}
+		write()
+	}()
+	sa := c.storeDigest(ctx)
+	ma := c.memParts()
+	classes, keys := c09Diff(sb, sa)
+	for i, name := range []string{"oracle-mem/agc-params", "oracle-mem/agc", "oracle-mem/cache"} {
+		if mb[i] != ma[i] {
+			classes = append(classes, name)
+		}
+	}
+	var facts c09Facts
+	facts.seti("ante.ok", 1)
+	facts.seti("n", int64(len(msgs)))
+	facts.seti("fail.idx", failIdx)
+	r := map[string]string{"ok": "ROk", "fail": "RFail", "panic": "RPanic"}[res]
+	term := cApp("CCall", cApp("mkCall", "OracleParamsTx", facts.coq(), r, c09Strs(classes)))
+	c.w.Add(term, map[string]interface{}{"suite": "c09mem", "kind": "OracleParamsTx", "pattern": kind, "facts": facts.json(), "result": res,
+		"failed_at_message": failIdx, "changed": classes, "changed_keys": keys, "height": c.env.Header.Height, "tags": c09Tags(tags), "nt": true})
+	c.w.Count("pattern=" + kind)
+	c.w.Count("result=" + res)
+	c.n++
+	return res
+}
+
+func (c *c09memEnv) paramsCase(usedKF *int) {
+	rng := c.rng
+	ctx := c.env.App.BaseApp.NewContext(false, c.env.Header)
+	p := c.env.App.OracleKeeper.GetParams(ctx)
+	auth := sdk.AccAddress(c.env.AccAddrs[0].Bytes()).String()
+	h := uint64(c.env.Header.Height)
+	c.pseq++
+	// an existing token (index >= 1) whose asset id is changed: the only field of a started token that can change
+	tokIdx := 1 + rng.Intn(len(p.Tokens)-1)
+	tok := p.Tokens[tokIdx]
+	tokenUpd := &oracletypes.Token{Name: tok.Name, ChainID: tok.ChainID, AssetID: fmt.Sprintf("0x%040x_0x65", 0xa55e7000+c.pseq)}
+	goodChain := &oracletypes.Chain{Name: fmt.Sprintf("chain%d", c.pseq), Desc: "c09"}
+	newTok := &oracletypes.Token{Name: fmt.Sprintf("TK%d", c.pseq), ChainID: 1, ContractAddress: "0x", Decimal: 8, Active: true, AssetID: ""}
+	newFeeder := &oracletypes.TokenFeeder{TokenID: uint64(len(p.Tokens)), RuleID: 1, StartRoundID: 1, StartBaseBlock: h + 100000, Interval: 10}
+	runningFeeder := uint64(1) // feeder 1 is running with EndBlock 0
+	mk := func(pp oracletypes.Params) *oracletypes.MsgUpdateParams {
+		return &oracletypes.MsgUpdateParams{Authority: auth, Params: pp}
+	}
+	good := []oracletypes.Params{
+		{Chains: []*oracletypes.Chain{goodChain}},
+		{Tokens: []*oracletypes.Token{tokenUpd}},
+		{Tokens: []*oracletypes.Token{newTok}, TokenFeeders: []*oracletypes.TokenFeeder{newFeeder}},
+		{MaxSizePrices: int32(100 + rng.Intn(5))},
+	}
+	// rejected at a LATER step, after the step that edits an existing token (or adds things) has run
+	bad := []struct {
+		name string
+		p    oracletypes.Params
+	}{
+		{"token-update,then-negative-max-size", oracletypes.Params{Tokens: []*oracletypes.Token{tokenUpd}, MaxSizePrices: -1}},
+		{"token-update,then-feeder-without-field", oracletypes.Params{Tokens: []*oracletypes.Token{tokenUpd}, TokenFeeders: []*oracletypes.TokenFeeder{{TokenID: p.TokenFeeders[runningFeeder].TokenID}}}},
+		{"token-update,then-feeder-end-in-past", oracletypes.Params{Tokens: []*oracletypes.Token{tokenUpd}, TokenFeeders: []*oracletypes.TokenFeeder{{TokenID: p.TokenFeeders[runningFeeder].TokenID, EndBlock: 1}}}},
+		{"token-update,then-invalid-new-token", oracletypes.Params{Tokens: []*oracletypes.Token{tokenUpd, {Name: fmt.Sprintf("BAD%d", c.pseq), ChainID: 99, Decimal: 8, Active: true}}}},
+		{"token-update,then-bad-rule", oracletypes.Params{Tokens: []*oracletypes.Token{tokenUpd}, Rules: []*oracletypes.RuleSource{{SourceIDs: []uint64{99}}}}},
+		{"new-chain,then-negative-max-size", oracletypes.Params{Chains: []*oracletypes.Chain{goodChain}, MaxSizePrices: -1}},
+		{"new-token,then-feeder-start-in-past", oracletypes.Params{Tokens: []*oracletypes.Token{newTok}, TokenFeeders: []*oracletypes.TokenFeeder{{TokenID: uint64(len(p.Tokens)), RuleID: 1, StartRoundID: 1, StartBaseBlock: 1, Interval: 0}}}},
+	}
+	switch k := rng.Intn(10); {
+	case *usedKF < 2 && k < 4:
+		// the known variant: an ACCEPTED update pushes the params into the in-memory cache, a later message of the same
+		// transaction is rejected, the store is rolled back, the cache keeps the params
+		*usedKF++
+		b := bad[rng.Intn(len(bad))]
+		c.deliverParams("accepted,then-"+b.name, []*oracletypes.MsgUpdateParams{mk(good[0]), mk(b.p)}, false, []string{"kf-C09-oracle-params-cache-not-rolled-back"})
+	case k < 3:
+		c.deliverParams("accepted", []*oracletypes.MsgUpdateParams{mk(good[rng.Intn(len(good))])}, false, nil)
+	case k < 8:
+		b := bad[rng.Intn(len(bad))]
+		c.deliverParams(b.name, []*oracletypes.MsgUpdateParams{mk(b.p)}, false, nil)
+	case k < 9:
+		b := bad[rng.Intn(len(bad))]
+		c.deliverParams("rejected,then-accepted", []*oracletypes.MsgUpdateParams{mk(b.p), mk(good[0])}, false, nil)
+	default:
+		// wrong authority on the mainnet chain id: rejected before anything is read
+		c.deliverParams("wrong-authority", []*oracletypes.MsgUpdateParams{mk(good[1])}, true, nil)
+	}
 }
 
 func (c *c09memEnv) memJSON() string {
@@ -182,7 +309,7 @@ func (c *c09memEnv) deliver(kind string, signer int, msgs []c09memMsg, tags []st
 	r := map[string]string{"ok": "ROk", "fail": "RFail", "panic": "RPanic"}[res]
 	term := cApp("CCall", cApp("mkCall", "OracleTx", facts.coq(), r, c09Strs(classes)))
 	c.w.Add(term, map[string]interface{}{"suite": "c09mem", "kind": "OracleTx", "pattern": kind, "msgs": msgs, "facts": facts.json(), "result": res,
-		"failed_at_message": failIdx, "changed": classes, "changed_keys": keys, "height": c.env.Header.Height, "tags": tags, "nt": true})
+		"failed_at_message": failIdx, "changed": classes, "changed_keys": keys, "height": c.env.Header.Height, "tags": c09Tags(tags), "nt": true})
 	c.w.Count("pattern=" + kind)
 	c.w.Count("result=" + res)
 	if res == "fail" {
@@ -227,7 +354,7 @@ func runC09Mem(a *Args) error {
 	c := &c09memEnv{env: env, rng: rand.New(rand.NewSource(a.Seed)), w: w, txCfg: env.App.GetTxConfig()}
 	rng := c.rng
 	params := env.App.OracleKeeper.GetParams(env.Ctx)
-	usedKF, usedKF2 := 0, 0
+	usedKF, usedKF2, usedKFP := 0, 0, 0
 	reported := map[string]map[int]bool{}
 	for c.n < a.N {
 		ctx := env.App.BaseApp.NewContext(false, env.Header)
@@ -293,6 +420,9 @@ func runC09Mem(a *Args) error {
 					c.deliver("foreign-signer", (fresh+1)%3, []c09memMsg{mk(fresh, 0, price, ts)}, nil)
 				}
 			}
+		}
+		if rng.Intn(3) == 0 && c.n < a.N {
+			c.paramsCase(&usedKFP)
 		}
 		c.nextBlock()
 		w.Count("blocks")
